@@ -204,3 +204,25 @@ def c19_model_column_includes_a10(v, case):
     auto-precharge flag) as column bit 10 and drops A11, so columns >= 1024 and auto-precharged accesses hit the wrong
     location.  Accepts only data divergences on geometries with colbits > 10."""
     return bool((v.get("colbits") or 0) > 10 and v.get("kind") in ("model-read-data-differs-from-reference", "read-data-mismatch"))
+
+
+# ------------------------------------------------------------------------------------------------ C20
+def c20_basic_check_masks_after_suppressed(v, case):
+    """CommandsPipeline with the default (basic) overlap check looks at the commands *presented* on the previous phases,
+    not at those actually emitted: a command that follows a suppressed command within the window is suppressed as well,
+    although nothing is in flight.  Accepts only such witnesses: basic check, command missing, and every earlier command
+    in its window was itself not emitted."""
+    if v.get("kind") != "command-suppressed-although-nothing-in-flight" or v.get("extended_check"):
+        return False
+    w = v.get("earlier_commands_in_window") or []
+    return bool(w) and all(not x.get("emitted") for x in w)
+
+
+def c20_extended_check_window_truncated(v, case):
+    """CommandsPipeline with extended_overlaps_check=True recomputes 'was actually emitted' over a history of only the
+    previous controller cycle and assumes that its oldest entries were emitted; when a run of overlapping commands began
+    two or more cycles earlier the recomputed history disagrees with what was really sent, and commands are dropped or
+    emitted on top of each other.  Accepts only witnesses of the extended check inside such a long run."""
+    return bool(v.get("extended_check") and (v.get("chain_start_cycles_back") or 0) >= 2 and v.get("kind") in (
+        "command-suppressed-although-nothing-in-flight", "unexpected-command-on-the-pads", "cs-high-on-two-consecutive-slots",
+        "emitted-command-differs"))
